@@ -64,6 +64,7 @@ var covering = []string{
 	`forbid (principal, action, resource) when { datetime(context.name) > datetime("2024-01-01") || duration(context.b).toHours() > 1 };`,
 	`permit (principal, action, resource) when { [principal, context.a, resource].contains(User::"a") && {x: context.a, y: principal}.y == principal };`,
 	`permit (principal, action, resource) when { context.name like "1*" && principal.name like "*a*" };`,
+	`permit (principal, action, resource) when { [1, true, context.a].contains(true) && [context.b, 1, true].containsAny([true]) };`,
 	// tags, and constant conditions nested in records / tag keys (folding and the validator look inside)
 	`permit (principal, action, resource) when { principal.hasTag(context.name) && principal.getTag(context.name) == "v" };`,
 	`permit (principal, action, resource) when { resource.getTag(if true then "k" else "j") == "v" || principal.getTag({k: "a", j: (if false then "x" else "k")}.j) like "*" };`,
@@ -179,7 +180,7 @@ func genFixture(r *core.Run) *fixture {
 	for i := 0; i < 3; i++ {
 		f.vals = append(f.vals, g.Value(2))
 	}
-	f.set = types.NewSet(g.Value(1), g.Value(1), types.Long(1), types.True)
+	f.set = types.NewSet(g.Value(1), g.Value(1), types.Long(1), types.True, types.NewDurationFromMillis(1))
 	f.rec = g.Record(2)
 	fx := fixtures.Pick(r.T)
 	if fx != nil {
@@ -349,6 +350,8 @@ func (f *fixture) operations() []operation {
 			}
 			fmt.Fprintf(&sb, " %s %v %v;", a.String(), f.set.Contains(a), f.set.Equal(a))
 		}
+		// members that collide in the internal hash: lookups probe past the home slot
+		fmt.Fprintf(&sb, "%v%v%v%v", f.set.Contains(types.True), f.set.Contains(types.Long(1)), f.set.Contains(types.NewDurationFromMillis(1)), f.set.Contains(types.Long(2)))
 		fmt.Fprintf(&sb, "%s %s %d", f.set.String(), f.rec.String(), f.rec.Len())
 		return sb.String()
 	})
